@@ -101,11 +101,13 @@ def main():
         prev = {}
         if os.path.exists(os.path.join(dst, "meta.json")):
             prev = json.load(open(os.path.join(dst, "meta.json")))
-        for f in os.listdir(seed):
-            shutil.copy(os.path.join(seed, f), os.path.join(dst, f if not f.endswith("_test.go") else f + ".txt"))
+        if os.path.realpath(seed) != os.path.realpath(dst):
+            for f in os.listdir(seed):
+                shutil.copy(os.path.join(seed, f), os.path.join(dst, f if not f.endswith("_test.go") else f + ".txt"))
         mp = os.path.join(dst, "meta.json")
         meta = json.load(open(mp)) if os.path.exists(mp) else {}
-        for k in ("check_results", "first_run", "confirmed_by_coordinator"):
+        # what earlier runs recorded (verdicts, cross-property checks, notes) survives a re-run
+        for k in ("check_results", "first_run", "confirmed_by_coordinator", "cross_checks", "latest_note"):
             if k in prev and k not in meta:
                 meta[k] = prev[k]
         meta.setdefault("property", a.prop)
